@@ -103,6 +103,25 @@ class Parser(ABC):
             elif line_parsed.get("directive") is not None:
                 raise ParserDirectiveException(line_number=line_number, line=line)
 
+    def _literal_to_int(
+        self, literal: str, line_number: int, line: str, base: int = 0
+    ) -> int:
+        """Convert a numeric literal token into an int.
+
+        Args:
+            literal (str): The token, e.g. '-12', '0x1F' or '0b101'.
+            line_number (int): The line number in which the literal occurs.
+            line (str): The line in which the literal occurs.
+            base (int, optional): Base passed to int(). Defaults to 0 (prefix decides).
+
+        Raises:
+            ParserSyntaxException: If the literal cannot be converted (e.g. '08' or a number with too many digits).
+        """
+        try:
+            return int(literal, base=base)
+        except ValueError:
+            raise ParserSyntaxException(line_number=line_number, line=line)
+
     def _add_label_mapping(self, label: str, value: int, line_number: int, line: str):
         """Add label (variable) value mapping to self.labels. Raise an error if the label, ... already exists.
 
